@@ -16,6 +16,9 @@ pub struct EndOfExecution;
 enum TState {
     Running,
     Parked,
+    /// granted the token but did not come back within the grace period: it blocks on a
+    /// primitive the model does not know (only with `detect_real_blocking`)
+    Blocked,
     Finished,
 }
 
@@ -61,6 +64,9 @@ struct Inner {
     ignore: Vec<&'static str>,
     only_points: Option<Vec<&'static str>>,
     eager_others: bool,
+    nonblocking_locks: Vec<&'static str>,
+    detect_real_blocking: bool,
+    last_progress: Instant,
     log: Vec<String>,
     keep_log: bool,
 }
@@ -108,6 +114,13 @@ pub struct SchedCfg {
     /// threads run only when everybody else blocks), true = always run the enabled thread that
     /// registered last (threads spawned by the logger run as early as possible)
     pub eager_others: bool,
+    /// lock kinds whose `Acquire` is only a scheduling point: the thread then really blocks on
+    /// the primitive (needs `detect_real_blocking`)
+    pub nonblocking_locks: Vec<&'static str>,
+    /// a granted thread that does not reach its next hook within 120 ms is taken for blocked on
+    /// an unmodelled primitive; the token goes to another thread, the blocked one re-joins the
+    /// protocol at its next hook
+    pub detect_real_blocking: bool,
 }
 
 impl Sched {
@@ -129,6 +142,9 @@ impl Sched {
                 ignore: cfg.ignore,
                 only_points: cfg.only_points,
                 eager_others: cfg.eager_others,
+                nonblocking_locks: cfg.nonblocking_locks,
+                detect_real_blocking: cfg.detect_real_blocking,
+                last_progress: Instant::now(),
                 log: Vec::new(),
                 keep_log: cfg.keep_log,
             }),
@@ -185,6 +201,7 @@ impl Sched {
         }
         g.threads[tid].state = TState::Running;
         g.running = Some(tid);
+        g.last_progress = Instant::now();
     }
 
     /// Chooses the next thread to run. `from` is the thread that made the step (now parked or
@@ -205,6 +222,10 @@ impl Sched {
                 .iter()
                 .any(|t| t.harness && t.state != TState::Finished);
             g.running = None;
+            if g.threads.iter().any(|t| t.state == TState::Blocked) {
+                // somebody is blocked for real and will come back
+                return;
+            }
             if alive_harness {
                 let desc = g
                     .threads
@@ -264,7 +285,28 @@ impl Sched {
             if g.running == Some(tid) && g.threads[tid].state == TState::Running {
                 return;
             }
-            g = self.cv.wait(g).unwrap_or_else(|e| e.into_inner());
+            if g.detect_real_blocking {
+                let (ng, to) = self
+                    .cv
+                    .wait_timeout(g, Duration::from_millis(30))
+                    .unwrap_or_else(|e| e.into_inner());
+                g = ng;
+                if to.timed_out() {
+                    if let Some(r) = g.running {
+                        if g.threads[r].state == TState::Running && g.last_progress.elapsed() > Duration::from_millis(120) {
+                            g.threads[r].state = TState::Blocked;
+                            if g.keep_log {
+                                g.log.push(format!("T{r} blocks for real"));
+                            }
+                            g.running = None;
+                            self.choose(&mut g, r);
+                            self.cv.notify_all();
+                        }
+                    }
+                }
+            } else {
+                g = self.cv.wait(g).unwrap_or_else(|e| e.into_inner());
+            }
         }
     }
 
@@ -332,6 +374,7 @@ impl Sched {
                 if g.locks.get(&(*k, *id)) == Some(&tid) {
                     g.locks.remove(&(*k, *id));
                 }
+                g.last_progress = Instant::now();
             }
             (Op::Release(..), None) => {}
             (Op::Spawned(kind), _) => {
@@ -359,9 +402,18 @@ impl Sched {
                 if !Self::is_sched_point(&g, &op) {
                     return;
                 }
+                let op = match op {
+                    Op::Acquire(k, _) if g.nonblocking_locks.contains(&k) => Op::Point(k),
+                    o => o,
+                };
+                // a thread that was taken for blocked re-joins here without holding the token
+                let holds = g.running == Some(tid);
                 g.threads[tid].pending = Some(op);
                 g.threads[tid].state = TState::Parked;
-                self.choose(&mut g, tid);
+                g.last_progress = Instant::now();
+                if holds || g.running.is_none() {
+                    self.choose(&mut g, tid);
+                }
                 self.cv.notify_all();
                 self.wait_for_grant(g, tid);
             }
@@ -387,7 +439,7 @@ impl Sched {
         g.threads[tid].state = TState::Finished;
         g.threads[tid].pending = None;
         g.locks.retain(|_, owner| *owner != tid);
-        if was_running {
+        if was_running || g.running.is_none() {
             g.running = None;
             self.choose(&mut g, tid);
         }
@@ -402,6 +454,7 @@ impl Sched {
         let tid = self.register(&mut g, "driver", true, None);
         g.threads[tid].state = TState::Running;
         g.running = Some(tid);
+        g.last_progress = Instant::now();
     }
 
     /// Spawns a controlled harness thread; returns when the child is parked at its start point.
